@@ -57,7 +57,7 @@ Proof.
   induction s as [lf|w p cs IH] using space_ind'; intros xr xi yr yi a b c d Ha Hb Hc Hd.
   - destruct xr as [ar|]; [|discriminate]. destruct yr as [br|]; [|discriminate].
     destruct xi as [ai|]; [|discriminate]. destruct yi as [bi|]; [|discriminate].
-    cbn [sp_inner csp_inner] in *. destruct lf as [blas zd lw p | blas axes lw p]; cbn [leaf_inner c_leaf_inner] in *.
+    cbn [sp_inner csp_inner] in *. destruct lf as [lw p | axes lw p]; cbn [leaf_inner c_leaf_inner] in *.
     + unfold t_inner in *. destruct (is2 p); [|discriminate].
       injection Ha as <-. injection Hb as <-. injection Hc as <-. injection Hd as <-. reflexivity.
     + unfold t_inner in *. destruct (is2 p); cbn [negb].
@@ -67,17 +67,13 @@ Proof.
   - destruct xr as [|xrs]; [discriminate|]. destruct yr as [|yrs]; [cbn in Ha; discriminate|].
     destruct xi as [|xis]; [discriminate|]. destruct yi as [|yis]; [cbn in Hb; discriminate|].
     cbn [sp_inner csp_inner] in *. destruct (negb (is2 p)); [discriminate|].
-    destruct cs as [|c0 cs0].
-    + destruct (q_ps_empty_raises q); [discriminate|].
-      injection Ha as <-. injection Hb as <-. injection Hc as <-. injection Hd as <-. numR. f_equal; f_equal; lra.
     + apply bind_ok in Ha. destruct Ha as (va & Ea & Ha). injection Ha as <-.
       apply bind_ok in Hb. destruct Hb as (vb & Eb & Hb). injection Hb as <-.
       apply bind_ok in Hc. destruct Hc as (vc & Ec & Hc). injection Hc as <-.
       apply bind_ok in Hd. destruct Hd as (vd & Ed & Hd). injection Hd as <-.
-      assert (Hz : exists zs, collect4 (csp_inner q) (c0 :: cs0) xrs xis yrs yis = Ok zs /\
+      assert (Hz : exists zs, collect4 (csp_inner q) cs xrs xis yrs yis = Ok zs /\
                    map fst zs = vadd va vb /\ map snd zs = vsub vc vd).
       { clear w. revert xrs xis yrs yis va vb vc vd Ea Eb Ec Ed.
-        generalize (c0 :: cs0) IH. clear IH c0 cs0. intros cs IH.
         induction IH as [|c cs Hc0 _ IHcs]; intros xrs xis yrs yis va vb vc vd Ea Eb Ec Ed.
         - destruct xrs, yrs; cbn in Ea; try discriminate. destruct xis, yis; cbn in Eb; try discriminate.
           injection Ea as <-. injection Eb as <-. cbn in Ec, Ed. injection Ec as <-. injection Ed as <-.
